@@ -1,18 +1,1745 @@
-//! C02 — not implemented yet.
+//! C02 — DIE forest reported exactly as encoded by every navigation API.
+//!
+//! Oracle: the model produced by `gen::info` (flat DIE stream with offsets, Appendix A.3
+//! depths, tags, children flags) and agreement among the navigation paths:
+//!  1. `EntriesRaw::read_entry` (incl. nulls, `next_offset` / `next_depth` predictions),
+//!  2. `EntriesCursor::next_dfs`,
+//!  3. `EntriesCursor::next_entry` (incl. nulls; `current/offset/depth/next_offset/next_depth`),
+//!  4. `next_entry` + `next_sibling` descent reconstructing parent / position of every entry,
+//!  5. `EntriesTree::root` + recursive `children()`,
+//!  6. positioned reads at every entry offset: `UnitHeader::entry`, `entries_at_offset`
+//!     (dfs suffix and sibling list), `entries_tree(Some(off))` (subtree), `entries_raw(Some(off))`,
+//!  7. the same through `Dwarf::unit` / `Unit` wrappers (read/dwarf.rs).
+//! Plus unit-header accessors against the encoded header, offset conversions / bounds, and
+//! `Abbreviations::get` for every code scheme; tables with duplicate codes must be rejected.
 
+use crate::asm::Enc;
+use crate::gen::info::{
+    forest_depths, items_from_depths, AbbrevDecl, AbbrevTable, AttrDecl, AttrVal, Built, InfoCfg, Item, ItemModel, Sec, TypeOffset, UnitCfg, UnitKind,
+    UnitModel, Val,
+};
+use crate::model::forms::{self, Expect, Pay};
+use crate::props::c03::headers;
 use crate::props::PropInfo;
-use crate::rt::Ctx;
+use crate::rt::{hex, Ctx, Rng};
+use gimli::{EndianSlice, RunTimeEndian, UnitOffset};
+use serde_json::{json, Value};
+use std::collections::BTreeMap;
+
+#[path = "c02_corpus.rs"]
+mod corpus;
+
+type Rd<'a> = EndianSlice<'a, RunTimeEndian>;
 
 pub fn info() -> PropInfo {
     PropInfo {
         id: "C02",
         level: "exploration",
-        rule: "",
-        assumptions: &[],
-        exhaustive_subspaces: &[],
-        must_observe: &[],
+        rule: "Units are assembled by gen::info from a pre-order depth sequence (children flags, closing nulls, optional empty child lists, 0-3 trailing nulls) with per-node abbreviations. Systematic: every ordered forest with 1..6 nodes (196 shapes) x 9 DW_AT_sibling modes {none, right on every parent, right on a subset (also on childless entries), self, backward, inside own entry, beyond the unit, non-reference forms, wrong-forward on childless entries (secondary)} x trailing padding 0..3, rotating over the 64 encodings, unit kinds and 7 abbreviation code schemes {sequential, permuted, sparse, huge (2^32+5, 2^63, 2^64-1 ...), vec-then-map order, descending, random}; every header layout: {v2,v3,v4} x {compile unit, .debug_types type unit} and v5 x 6 unit types x 2 formats x 2 byte orders x 4 address sizes, also concatenated into multi-unit sections; abbreviation tables of 1..8 declarations per scheme with lookups of every declared and of absent codes, and every position pair (i,j) duplicated. Seeded random: forests up to 60 nodes, occasionally 3000 entries / 2000-deep chains / 5000 siblings, 1-4 units per section sharing or not sharing tables. Every entry offset is used as a start position (sampled to 48 starts for units above 400 items). Corpus: two small C translation units are compiled and linked at check time (quick: gcc v4 with type units, gcc v5 -O2, clang v2; thorough: gcc/clang x DWARF 2-5 x -O0/-O2, type units, gcc DWARF64) and every unit's header and entry sequence (section offset, depth, tag, attribute names, nulls) is compared with llvm-dwarfdump. A case is non-trivial when the unit has at least 2 items; distinct = digest of (.debug_abbrev, .debug_info, .debug_types).",
+        assumptions: &[
+            "a unit may contain several top-level entries (a forest); depth bookkeeping follows DESIGN.md Appendix A.3 (a null is reported at the current depth, then the depth drops by one)",
+            "DW_AT_sibling values that are not a unit reference greater than the entry's offset, lie inside the entry itself or beyond the unit must leave the reported forest unchanged; wrong forward values on childless entries are a secondary observation; wrong forward values on entries with children are not generated",
+            "the recursive tree API is exercised up to depth 300 (its recursion is the caller's)",
+            "offsets that are not entry starts are not required to fail; UnitHeader::entry at a null is a secondary observation",
+            "the error variant for duplicate abbreviation codes is a secondary observation (rejection is judged)",
+            "usize is 64 bits on this host",
+            "corpus: llvm-dwarfdump 14 is the oracle for compiler-built objects; depth is taken from its indentation (2 columns per level); tool failures are inconclusive",
+        ],
+        exhaustive_subspaces: &[
+            "ordered forests with <= 6 nodes x sibling modes x trailing padding 0..3",
+            "unit header layouts: version x unit type x format x byte order x address size",
+            "duplicate abbreviation code at every position pair for tables of <= 6 declarations, per code scheme",
+        ],
+        must_observe: MUST,
         run,
     }
 }
 
-pub fn run(_ctx: &mut Ctx) {}
+const MUST: &[&str] = &[
+    "path.raw", "path.dfs", "path.next_entry", "path.sibling_walk", "path.tree", "path.pos.entry", "path.pos.dfs", "path.pos.siblings", "path.pos.tree",
+    "path.pos.raw", "path.dwarf_unit",
+    "unit.v2.Compile", "unit.v3.Compile", "unit.v4.Compile", "unit.v2.Type", "unit.v3.Type", "unit.v4.Type", "unit.v5.Compile", "unit.v5.Type", "unit.v5.Partial",
+    "unit.v5.Skeleton", "unit.v5.SplitCompile", "unit.v5.SplitType", "unit.format32", "unit.format64", "unit.le", "unit.be", "unit.addr1", "unit.addr2",
+    "unit.addr4", "unit.addr8", "section.debug_types", "section.multi_unit",
+    "sibling.None", "sibling.RightAll", "sibling.RightSubset", "sibling.SelfRef", "sibling.Backward", "sibling.Inside", "sibling.Beyond", "sibling.NonRef",
+    "sibling.WrongChildless", "sibling.target.null", "sibling.target.end", "sibling.target.entry",
+    "codes.Sequential", "codes.Permuted", "codes.Sparse", "codes.Huge", "codes.VecMap", "codes.Descending", "codes.Random",
+    "abbrev.get.declared", "abbrev.get.absent", "abbrev.duplicate.rejected", "abbrev.unterminated",
+    "padding.0", "padding.1", "padding.2", "padding.3", "shape.empty_child_list", "shape.multi_root", "shape.deep_chain", "shape.wide", "shape.large",
+    "bounds.checked", "header.from_offset", "corpus.object", "corpus.unit", "corpus.entry", "corpus.type_unit",
+];
+
+// ------------------------------------------------------------------ observation vocabulary
+
+#[derive(Clone, Debug, PartialEq, Eq)]
+pub struct Ent {
+    pub off: u64,
+    pub depth: i64,
+    pub null: bool,
+    pub tag: u16,
+    pub children: bool,
+    pub nattrs: usize,
+}
+
+fn ent_of(e: &gimli::DebuggingInformationEntry<Rd<'_>>) -> Ent {
+    Ent { off: e.offset().0 as u64, depth: e.depth() as i64, null: e.is_null(), tag: e.tag().0, children: e.has_children(), nattrs: e.attrs().len() }
+}
+
+fn e2s<T>(r: gimli::Result<T>) -> Result<T, String> {
+    r.map_err(|e| format!("{e:?}"))
+}
+
+type Abb = gimli::Abbreviations;
+type Hdr<'a> = gimli::UnitHeader<Rd<'a>>;
+
+/// path 1
+fn raw_seq(h: &Hdr<'_>, ab: &Abb, start: Option<u64>) -> Result<(Vec<Ent>, bool), String> {
+    let mut raw = e2s(h.entries_raw(ab, start.map(|o| UnitOffset(o as usize))))?;
+    let mut out = vec![];
+    let mut pred_ok = true;
+    let mut e = gimli::DebuggingInformationEntry::null();
+    while !raw.is_empty() {
+        let po = raw.next_offset().0 as u64;
+        let pd = raw.next_depth() as i64;
+        e2s(raw.read_entry(&mut e))?;
+        let x = ent_of(&e);
+        pred_ok &= x.off == po && x.depth == pd;
+        out.push(x);
+    }
+    Ok((out, pred_ok))
+}
+
+/// path 2
+fn dfs_seq(mut c: gimli::EntriesCursor<'_, Rd<'_>>) -> Result<(Vec<Ent>, bool), String> {
+    let mut out = vec![];
+    while let Some(e) = e2s(c.next_dfs())? {
+        out.push(ent_of(e));
+    }
+    // exhausted cursors stay exhausted
+    let mut stays = true;
+    for _ in 0..2 {
+        stays &= matches!(c.next_dfs(), Ok(None));
+        stays &= c.current().is_none();
+    }
+    Ok((out, stays))
+}
+
+/// path 3
+fn entry_seq(mut c: gimli::EntriesCursor<'_, Rd<'_>>) -> Result<(Vec<Ent>, bool), String> {
+    let mut out = vec![];
+    let mut ok = true;
+    loop {
+        let po = c.next_offset().0 as u64;
+        let pd = c.next_depth() as i64;
+        if !e2s(c.next_entry())? {
+            break;
+        }
+        let off = c.offset().0 as u64;
+        let depth = c.depth() as i64;
+        ok &= off == po && depth == pd;
+        match c.current() {
+            Some(e) => {
+                let x = ent_of(e);
+                ok &= x.off == off && x.depth == depth;
+                out.push(x);
+            }
+            None => out.push(Ent { off, depth, null: true, tag: 0, children: false, nattrs: 0 }),
+        }
+    }
+    ok &= matches!(c.next_entry(), Ok(false)) && c.current().is_none();
+    Ok((out, ok))
+}
+
+/// path 6b: cursor started at `off`; first entry, then repeated next_sibling.
+fn sibling_list(h: &Hdr<'_>, ab: &Abb, off: u64) -> Result<(Vec<Ent>, bool), String> {
+    let mut c = e2s(h.entries_at_offset(ab, UnitOffset(off as usize)))?;
+    let mut out = vec![];
+    if !e2s(c.next_entry())? {
+        return Ok((out, true));
+    }
+    match c.current() {
+        Some(e) => out.push(ent_of(e)),
+        None => return Ok((out, true)),
+    }
+    while let Some(e) = e2s(c.next_sibling())? {
+        out.push(ent_of(e));
+    }
+    // "Once Ok(None) is returned, this method will continue to return Ok(None)"
+    let mut stays = true;
+    for _ in 0..2 {
+        stays &= matches!(c.next_sibling(), Ok(None));
+    }
+    Ok((out, stays))
+}
+
+/// path 4: (offset, parent offset, position in its sibling list), sorted by offset.
+fn sibling_walk(h: &Hdr<'_>, ab: &Abb, budget: &mut u64) -> Result<Vec<(u64, Option<u64>, usize)>, String> {
+    let mut out = vec![];
+    let mut c = h.entries(ab);
+    if !e2s(c.next_entry())? || c.current().is_none() {
+        return Ok(out);
+    }
+    let mut stack = vec![(c, None::<u64>)];
+    while let Some((mut c, parent)) = stack.pop() {
+        let mut pos = 0usize;
+        loop {
+            let (off, has_children) = match c.current() {
+                Some(e) => (e.offset().0 as u64, e.has_children()),
+                None => break,
+            };
+            out.push((off, parent, pos));
+            pos += 1;
+            if *budget == 0 {
+                return Err("budget".into());
+            }
+            *budget -= 1;
+            if has_children {
+                let mut child = c.clone();
+                if e2s(child.next_entry())? && child.current().is_some() {
+                    stack.push((child, Some(off)));
+                }
+            }
+            if e2s(c.next_sibling())?.is_none() {
+                break;
+            }
+        }
+    }
+    out.sort();
+    Ok(out)
+}
+
+/// Does a partial traversal descend into the children of the entry at `off`?
+/// mode 0: always; mode 1: never (only the root's direct children are listed);
+/// mode 2: only for entries at even offsets.  Skipping a node's children is what makes
+/// `EntriesTree::next` use its DW_AT_sibling fast path / depth-based skipping.
+fn descend(mode: u8, off: u64) -> bool {
+    match mode {
+        0 => true,
+        1 => false,
+        _ => off % 2 == 0,
+    }
+}
+
+/// path 5
+fn walk_tree(node: gimli::EntriesTreeNode<'_, '_, Rd<'_>>, depth: i64, parent: Option<u64>, mode: u8, out: &mut Vec<(Ent, Option<u64>)>) -> gimli::Result<()> {
+    let mut x = ent_of(node.entry());
+    let reported_depth = x.depth;
+    // the tree position is what is judged; the entry's own depth field must agree with it
+    x.depth = depth;
+    if reported_depth != depth {
+        x.nattrs = usize::MAX; // poison: makes the comparison fail visibly
+    }
+    let off = x.off;
+    out.push((x, parent));
+    if depth > 0 && !descend(mode, off) {
+        return Ok(());
+    }
+    let mut ch = node.children();
+    while let Some(c) = ch.next()? {
+        walk_tree(c, depth + 1, Some(off), mode, out)?;
+    }
+    // an exhausted child iterator stays exhausted
+    if ch.next()?.is_some() {
+        out.push((Ent { off: u64::MAX, depth, null: true, tag: 0, children: false, nattrs: 0 }, parent));
+    }
+    Ok(())
+}
+
+/// Full traversal (twice: `root()` can be taken again), then the two partial traversals.
+fn tree_seq(mut t: gimli::EntriesTree<'_, Rd<'_>>) -> Result<Vec<Vec<(Ent, Option<u64>)>>, String> {
+    let mut all = vec![];
+    for mode in [0u8, 0, 1, 2] {
+        let mut out = vec![];
+        let root = e2s(t.root())?;
+        e2s(walk_tree(root, 0, None, mode, &mut out))?;
+        all.push(out);
+    }
+    if all[0] != all[1] {
+        return Err("second root() traversal differs from the first".into());
+    }
+    all.remove(1);
+    Ok(all)
+}
+
+#[derive(Clone, Debug, PartialEq, Eq)]
+pub struct HeaderObs {
+    pub section: &'static str,
+    pub offset: u64,
+    pub unit_length: u64,
+    pub length_including_self: u64,
+    pub header_size: u64,
+    pub size_of_header: u64,
+    pub root_offset: u64,
+    pub version: u16,
+    pub fmt64: bool,
+    pub address_size: u8,
+    pub encoding: (bool, u16, u8),
+    pub abbrev_offset: u64,
+    pub kind: &'static str,
+    pub signature: u64,
+    pub type_offset: u64,
+    pub dwo_id: u64,
+    pub info_offset: Option<u64>,
+    pub types_offset: Option<u64>,
+}
+
+fn header_obs(h: &Hdr<'_>) -> HeaderObs {
+    let (kind, signature, type_offset, dwo_id) = match h.type_() {
+        gimli::UnitType::Compilation => ("Compile", 0, 0, 0),
+        gimli::UnitType::Type { type_signature, type_offset } => ("Type", type_signature.0, type_offset.0 as u64, 0),
+        gimli::UnitType::Partial => ("Partial", 0, 0, 0),
+        gimli::UnitType::Skeleton(d) => ("Skeleton", 0, 0, d.0),
+        gimli::UnitType::SplitCompilation(d) => ("SplitCompile", 0, 0, d.0),
+        gimli::UnitType::SplitType { type_signature, type_offset } => ("SplitType", type_signature.0, type_offset.0 as u64, 0),
+    };
+    let e = h.encoding();
+    HeaderObs {
+        section: match h.section() {
+            gimli::SectionId::DebugInfo => "Info",
+            gimli::SectionId::DebugTypes => "Types",
+            _ => "other",
+        },
+        offset: h.offset().0 as u64,
+        unit_length: h.unit_length() as u64,
+        length_including_self: h.length_including_self() as u64,
+        header_size: h.header_size() as u64,
+        size_of_header: h.size_of_header() as u64,
+        root_offset: h.root_offset().0 as u64,
+        version: h.version(),
+        fmt64: h.format() == gimli::Format::Dwarf64,
+        address_size: h.address_size(),
+        encoding: (e.format == gimli::Format::Dwarf64, e.version, e.address_size),
+        abbrev_offset: h.debug_abbrev_offset().0 as u64,
+        kind,
+        signature,
+        type_offset,
+        dwo_id,
+        info_offset: h.debug_info_offset().map(|o| o.0 as u64),
+        types_offset: h.debug_types_offset().map(|o| o.0 as u64),
+    }
+}
+
+fn header_model(u: &UnitModel) -> HeaderObs {
+    let isz = if u.enc.fmt64 { 12 } else { 4 };
+    HeaderObs {
+        section: if u.sec == Sec::Info { "Info" } else { "Types" },
+        offset: u.offset,
+        unit_length: u.unit_length,
+        length_including_self: u.unit_length + isz,
+        header_size: u.header_size,
+        size_of_header: u.header_size,
+        root_offset: u.header_size,
+        version: u.enc.version,
+        fmt64: u.enc.fmt64,
+        address_size: u.enc.addr,
+        encoding: (u.enc.fmt64, u.enc.version, u.enc.addr),
+        abbrev_offset: u.abbrev_offset,
+        kind: match u.kind {
+            UnitKind::Compile => "Compile",
+            UnitKind::Type => "Type",
+            UnitKind::Partial => "Partial",
+            UnitKind::Skeleton => "Skeleton",
+            UnitKind::SplitCompile => "SplitCompile",
+            UnitKind::SplitType => "SplitType",
+        },
+        signature: if u.kind.has_type() { u.type_signature } else { 0 },
+        type_offset: if u.kind.has_type() { u.type_offset } else { 0 },
+        dwo_id: if u.kind.has_dwo_id() { u.dwo_id } else { 0 },
+        info_offset: if u.sec == Sec::Info { Some(u.offset) } else { None },
+        types_offset: if u.sec == Sec::Types { Some(u.offset) } else { None },
+    }
+}
+
+/// Everything gimli reports about one unit.
+#[derive(Clone, Debug)]
+pub struct UnitObs {
+    pub header: HeaderObs,
+    pub header_from_offset_same: Option<bool>,
+    /// (offset probed, is_in_bounds, section->unit conversion, range_from ok, entries_at_offset ok)
+    pub bounds: Vec<(u64, bool, Option<u64>, bool, bool)>,
+    pub abbrevs: Result<(), String>,
+    pub raw: Result<(Vec<Ent>, bool), String>,
+    pub dfs: Result<(Vec<Ent>, bool), String>,
+    pub entries: Result<(Vec<Ent>, bool), String>,
+    pub walk: Result<Vec<(u64, Option<u64>, usize)>, String>,
+    pub tree: Option<Result<Vec<Vec<(Ent, Option<u64>)>>, String>>,
+    pub dwarf_unit: Option<Result<(Vec<Ent>, Vec<Ent>), String>>,
+    /// per start item index
+    pub pos: Vec<PosObs>,
+    /// UnitHeader::entry at null offsets is an error
+    pub entry_at_null_err: Vec<bool>,
+}
+
+#[derive(Clone, Debug)]
+pub struct PosObs {
+    pub item: usize,
+    pub entry: Result<Ent, String>,
+    pub dfs: Result<(Vec<Ent>, bool), String>,
+    pub siblings: Result<(Vec<Ent>, bool), String>,
+    pub tree: Option<Result<Vec<Vec<(Ent, Option<u64>)>>, String>>,
+    pub raw: Result<(Vec<Ent>, bool), String>,
+}
+
+pub struct Plan {
+    /// item indices used as start positions, per unit
+    pub starts: Vec<Vec<usize>>,
+    /// run the recursive tree API (depth <= 300)
+    pub tree: Vec<bool>,
+}
+
+fn observe(b: &Built, plan: &Plan) -> Result<Vec<UnitObs>, String> {
+    let endian = if b.le { RunTimeEndian::Little } else { RunTimeEndian::Big };
+    let da = gimli::DebugAbbrev::new(&b.debug_abbrev, endian);
+    let di = gimli::DebugInfo::new(&b.debug_info, endian);
+    let hs = headers(b)?;
+    let mut dwarf = gimli::Dwarf::default();
+    dwarf.debug_info = di;
+    dwarf.debug_abbrev = da;
+    dwarf.debug_types = gimli::DebugTypes::new(&b.debug_types, endian);
+    let mut out = vec![];
+    for (ui, (um, h)) in b.units.iter().zip(hs.iter()).enumerate() {
+        let header = header_obs(h);
+        let header_from_offset_same = if um.sec == Sec::Info {
+            Some(di.header_from_offset(gimli::DebugInfoOffset(um.offset as usize)).map(|x| x == *h).unwrap_or(false))
+        } else {
+            None
+        };
+        let ab_res = e2s(h.abbreviations(&da));
+        let mut bounds = vec![];
+        for x in [0u64, 1, um.header_size.wrapping_sub(1), um.header_size, um.header_size + 1, um.end.wrapping_sub(1), um.end, um.end + 1, um.end + 1000, u32::MAX as u64] {
+            let uo = UnitOffset(x as usize);
+            let inb = uo.is_in_bounds(h);
+            let conv = gimli::UnitSectionOffset((um.offset + x) as usize).to_unit_offset(h).map(|o| o.0 as u64);
+            let rf = h.range_from(uo..).is_ok();
+            let ea = match &ab_res {
+                Ok(ab) => h.entries_at_offset(ab, uo).is_ok(),
+                Err(_) => false,
+            };
+            bounds.push((x, inb, conv, rf, ea));
+        }
+        let ab = match ab_res {
+            Ok(a) => a,
+            Err(e) => {
+                out.push(UnitObs {
+                    header,
+                    header_from_offset_same,
+                    bounds,
+                    abbrevs: Err(e),
+                    raw: Err("-".into()),
+                    dfs: Err("-".into()),
+                    entries: Err("-".into()),
+                    walk: Err("-".into()),
+                    tree: None,
+                    dwarf_unit: None,
+                    pos: vec![],
+                    entry_at_null_err: vec![],
+                });
+                continue;
+            }
+        };
+        let raw = raw_seq(h, &ab, None);
+        let dfs = dfs_seq(h.entries(&ab));
+        let entries = entry_seq(h.entries(&ab));
+        let mut budget = 40_000_000u64;
+        let walk = sibling_walk(h, &ab, &mut budget);
+        let do_tree = plan.tree[ui];
+        let tree = if do_tree { Some(e2s(h.entries_tree(&ab, None)).and_then(tree_seq)) } else { None };
+        // path 7: through Dwarf / Unit
+        let dwarf_unit = if um.items.len() <= 400 {
+            Some((|| {
+                let unit = e2s(dwarf.unit(*h))?;
+                let a = dfs_seq(unit.entries())?.0;
+                let mut raw = e2s(unit.entries_raw(None))?;
+                let mut bseq = vec![];
+                let mut e = gimli::DebuggingInformationEntry::null();
+                while !raw.is_empty() {
+                    e2s(raw.read_entry(&mut e))?;
+                    bseq.push(ent_of(&e));
+                }
+                Ok((a, bseq))
+            })())
+        } else {
+            None
+        };
+        let mut pos = vec![];
+        let mut entry_at_null_err = vec![];
+        for &i in &plan.starts[ui] {
+            let im = &um.items[i];
+            if im.null {
+                entry_at_null_err.push(h.entry(&ab, UnitOffset(im.offset as usize)).is_err());
+                continue;
+            }
+            let off = im.offset;
+            let uo = UnitOffset(off as usize);
+            pos.push(PosObs {
+                item: i,
+                entry: e2s(h.entry(&ab, uo)).map(|e| ent_of(&e)),
+                dfs: e2s(h.entries_at_offset(&ab, uo)).and_then(dfs_seq),
+                siblings: sibling_list(h, &ab, off),
+                tree: if do_tree { Some(e2s(h.entries_tree(&ab, Some(uo))).and_then(tree_seq)) } else { None },
+                raw: raw_seq(h, &ab, Some(off)),
+            });
+        }
+        out.push(UnitObs { header, header_from_offset_same, bounds, abbrevs: Ok(()), raw, dfs, entries, walk, tree, dwarf_unit, pos, entry_at_null_err });
+    }
+    Ok(out)
+}
+
+// ------------------------------------------------------------------ model derivations
+
+fn ent_model(m: &ItemModel, rel: i64) -> Ent {
+    Ent { off: m.offset, depth: m.depth - rel, null: m.null, tag: if m.null { 0 } else { m.tag }, children: m.children, nattrs: m.attrs.len() }
+}
+
+/// parent item index of every item (None for top-level entries and for nulls).
+fn parents(items: &[ItemModel]) -> Vec<Option<usize>> {
+    let mut open: Vec<Option<usize>> = vec![];
+    let mut out = vec![];
+    for (i, m) in items.iter().enumerate() {
+        let d = m.depth;
+        if m.null {
+            out.push(None);
+            if d >= 1 {
+                if let Some(slot) = open.get_mut((d - 1) as usize) {
+                    *slot = None;
+                }
+            }
+            continue;
+        }
+        let p = if d >= 1 { open.get((d - 1) as usize).copied().flatten() } else { None };
+        out.push(p);
+        if m.children && d >= 0 {
+            let du = d as usize;
+            if open.len() <= du {
+                open.resize(du + 1, None);
+            }
+            open[du] = Some(i);
+        }
+    }
+    out
+}
+
+/// Entries following item `i` at the same depth until the null that closes their list.
+fn siblings_after(items: &[ItemModel], i: usize) -> Vec<usize> {
+    let d = items[i].depth;
+    let mut out = vec![];
+    for j in (i + 1)..items.len() {
+        let m = &items[j];
+        if m.depth > d {
+            continue;
+        }
+        if m.depth < d {
+            break;
+        }
+        if m.null {
+            break;
+        }
+        out.push(j);
+    }
+    out
+}
+
+/// Items of the subtree rooted at `i` (pre-order, entries only).
+fn subtree(items: &[ItemModel], i: usize) -> Vec<usize> {
+    let d = items[i].depth;
+    let mut out = vec![i];
+    if !items[i].children {
+        return out;
+    }
+    for j in (i + 1)..items.len() {
+        let m = &items[j];
+        if m.depth <= d {
+            break;
+        }
+        if m.null {
+            if m.depth == d + 1 {
+                break;
+            }
+            continue;
+        }
+        out.push(j);
+    }
+    out
+}
+
+// ------------------------------------------------------------------ case construction
+
+#[derive(Clone, Copy, Debug, PartialEq, Eq)]
+pub enum Sib {
+    None,
+    RightAll,
+    RightSubset,
+    SelfRef,
+    Backward,
+    Inside,
+    Beyond,
+    NonRef,
+    WrongChildless,
+}
+const SIBS: [Sib; 9] = [Sib::None, Sib::RightAll, Sib::RightSubset, Sib::SelfRef, Sib::Backward, Sib::Inside, Sib::Beyond, Sib::NonRef, Sib::WrongChildless];
+
+#[derive(Clone, Copy, Debug, PartialEq, Eq)]
+pub enum Scheme {
+    Sequential,
+    Permuted,
+    Sparse,
+    Huge,
+    VecMap,
+    Descending,
+    Random,
+}
+const SCHEMES: [Scheme; 7] = [Scheme::Sequential, Scheme::Permuted, Scheme::Sparse, Scheme::Huge, Scheme::VecMap, Scheme::Descending, Scheme::Random];
+
+/// Assign codes to `n` declarations (in table order).
+fn scheme_codes(r: &mut Rng, scheme: Scheme, n: usize) -> Vec<u64> {
+    let n64 = n as u64;
+    match scheme {
+        Scheme::Sequential => (1..=n64).collect(),
+        Scheme::Permuted => {
+            let mut v: Vec<u64> = (1..=n64).collect();
+            r.shuffle(&mut v);
+            v
+        }
+        Scheme::Descending => (1..=n64).rev().collect(),
+        Scheme::VecMap => {
+            // e.g. 1,2,5,3,4: later codes arrive before the dense prefix reaches them
+            let mut v: Vec<u64> = (1..=n64).collect();
+            if n >= 3 {
+                let k = 1 + r.usize(n - 2);
+                let last = v.remove(n - 1);
+                v.insert(k, last);
+            }
+            if n >= 5 && r.bool() {
+                v.swap(0, 2);
+            }
+            v
+        }
+        Scheme::Sparse => {
+            let pool = [1u64, 3, 1000, 7, 64, 127, 128, 129, 16383, 16384, 5000, 2, 255, 256, 65535, 65536, 1 << 21, 100_000];
+            distinct_from(r, &pool, n)
+        }
+        Scheme::Huge => {
+            let pool = [
+                (1u64 << 32) + 5, 1 << 63, u64::MAX, 1 << 32, (1 << 32) - 1, (1 << 63) - 1, u64::MAX - 1, (1 << 63) + 1, 1 << 35, 1 << 42, 1 << 49, 1 << 56,
+                (1 << 56) - 1, i64::MAX as u64 - 7, 3, 1,
+            ];
+            distinct_from(r, &pool, n)
+        }
+        Scheme::Random => {
+            let mut v: Vec<u64> = vec![];
+            while v.len() < n {
+                let c = match r.below(3) {
+                    0 => 1 + r.below(2 * n64 + 2),
+                    1 => r.boundary(),
+                    _ => r.next(),
+                };
+                if c != 0 && !v.contains(&c) {
+                    v.push(c);
+                }
+            }
+            v
+        }
+    }
+}
+
+fn distinct_from(r: &mut Rng, pool: &[u64], n: usize) -> Vec<u64> {
+    let mut p = pool.to_vec();
+    r.shuffle(&mut p);
+    let mut v: Vec<u64> = p.into_iter().take(n).collect();
+    let mut extra = 200_000u64;
+    while v.len() < n {
+        extra += 1 + r.below(1000);
+        if !v.contains(&extra) {
+            v.push(extra);
+        }
+    }
+    v
+}
+
+#[derive(Clone, Copy, Debug, PartialEq, Eq, Hash, PartialOrd, Ord)]
+struct Shape {
+    children: bool,
+    /// form of the DW_AT_sibling attribute (0 = none)
+    sib_form: u16,
+    /// 0 none, 1 data1 first, 2 string last, 3 udata first, 4 data2 + flag_present
+    extra: u8,
+}
+
+fn shape_attrs(s: Shape) -> Vec<AttrDecl> {
+    let mut v = vec![];
+    match s.extra {
+        1 => v.push(AttrDecl::new(0x3b, forms::F_DATA1)),
+        3 => v.push(AttrDecl::new(0x0b, forms::F_UDATA)),
+        4 => {
+            v.push(AttrDecl::new(0x39, forms::F_DATA2));
+            v.push(AttrDecl::new(0x3f, forms::F_FLAG_PRESENT));
+        }
+        _ => {}
+    }
+    if s.sib_form != 0 {
+        v.push(AttrDecl::new(forms::AT_SIBLING, s.sib_form));
+    }
+    if s.extra == 2 {
+        v.push(AttrDecl::new(forms::AT_NAME, forms::F_STRING));
+    }
+    v
+}
+
+pub struct ForestSpec<'a> {
+    pub enc: Enc,
+    pub kind: UnitKind,
+    pub depths: &'a [u8],
+    pub leaf_children: Vec<bool>,
+    pub sib: Sib,
+    pub scheme: Scheme,
+    pub trailing: usize,
+    /// declarations that no DIE uses, mixed into the table
+    pub unused_decls: usize,
+    pub terminated: bool,
+}
+
+/// What the generator intended for each DW_AT_sibling attribute.
+#[derive(Clone, Debug)]
+struct SibNote {
+    item: usize,
+    attr: usize,
+    /// Some(target item index) when the value is meant to be right
+    right: Option<usize>,
+}
+
+pub struct ForestUnit {
+    pub table: AbbrevTable,
+    pub unit: UnitCfg,
+    notes: Vec<SibNote>,
+    pub strict: bool,
+}
+
+/// Build one unit (and its own abbreviation table) for a forest.
+pub fn forest_unit(r: &mut Rng, sp: &ForestSpec<'_>, table_index: usize) -> ForestUnit {
+    let n = sp.depths.len();
+    // --- shapes per node
+    let small = n <= 8;
+    let mid = n <= 500;
+    let ref_forms: Vec<u16> = {
+        let mut v = vec![forms::F_REF4, forms::F_REF8, forms::F_REF_UDATA];
+        if small {
+            v.push(forms::F_REF1);
+        }
+        if mid {
+            v.push(forms::F_REF2);
+        }
+        v
+    };
+    let nonref_forms = [forms::F_DATA4, forms::F_REF_ADDR, forms::F_UDATA, forms::F_SEC_OFFSET, forms::F_DATA8, forms::F_REF_SIG8, forms::F_GNU_REF_ALT];
+    let mut shapes: Vec<Shape> = vec![];
+    let mut wrong_node: Vec<bool> = vec![false; n];
+    for i in 0..n {
+        let has_child = i + 1 < n && sp.depths[i + 1] == sp.depths[i] + 1;
+        let children = has_child || sp.leaf_children.get(i).copied().unwrap_or(false);
+        let extra = r.below(5) as u8;
+        let rf = ref_forms[r.usize(ref_forms.len())];
+        // deliberately wrong values only in forms wide enough that truncation cannot turn them
+        // into a plausible forward offset
+        let wf = [forms::F_REF4, forms::F_REF8, forms::F_REF_UDATA][r.usize(3)];
+        let sib_form = match sp.sib {
+            Sib::None => 0,
+            Sib::RightAll => if children { rf } else { 0 },
+            Sib::RightSubset => if r.bool() { rf } else { 0 },
+            Sib::SelfRef | Sib::Backward | Sib::Inside | Sib::Beyond => {
+                // wrong value on some parents, right values or nothing elsewhere
+                if children && r.chance(2, 3) {
+                    wrong_node[i] = true;
+                    wf
+                } else if r.chance(1, 3) {
+                    rf
+                } else {
+                    0
+                }
+            }
+            Sib::NonRef => {
+                if r.chance(2, 3) {
+                    wrong_node[i] = true;
+                    nonref_forms[r.usize(nonref_forms.len())]
+                } else {
+                    0
+                }
+            }
+            Sib::WrongChildless => {
+                if !children && r.chance(2, 3) {
+                    wrong_node[i] = true;
+                    wf
+                } else if children && r.bool() {
+                    rf
+                } else {
+                    0
+                }
+            }
+        };
+        shapes.push(Shape { children, sib_form, extra });
+    }
+    // --- distinct shapes -> declarations
+    let mut uniq: Vec<Shape> = shapes.clone();
+    uniq.sort();
+    uniq.dedup();
+    r.shuffle(&mut uniq);
+    let total = uniq.len() + sp.unused_decls;
+    let codes = scheme_codes(r, sp.scheme, total);
+    // table order: used and unused declarations interleaved
+    let mut slots: Vec<Option<Shape>> = uniq.iter().map(|s| Some(*s)).collect();
+    for _ in 0..sp.unused_decls {
+        let at = r.usize(slots.len() + 1);
+        slots.insert(at, None);
+    }
+    let mut decls = vec![];
+    let mut decl_of: BTreeMap<Shape, usize> = BTreeMap::new();
+    for (k, s) in slots.iter().enumerate() {
+        let tag = 0x11 + k as u16;
+        match s {
+            Some(s) => {
+                decl_of.insert(*s, k);
+                decls.push(AbbrevDecl { code: codes[k], tag, children: s.children, attrs: shape_attrs(*s) });
+            }
+            None => decls.push(AbbrevDecl { code: codes[k], tag, children: r.bool(), attrs: vec![AttrDecl::new(0x03, forms::F_STRP), AttrDecl::new(0x49, forms::F_REF4)] }),
+        }
+    }
+    // --- items
+    let shapes2 = shapes.clone();
+    let (mut items, node_item) = items_from_depths(
+        sp.depths,
+        &sp.leaf_children,
+        |i, flag| {
+            debug_assert_eq!(shapes2[i].children, flag);
+            decl_of[&shapes2[i]]
+        },
+        |_| vec![],
+    );
+    for _ in 0..sp.trailing {
+        items.push(Item::Null);
+    }
+    // depth per item (Appendix A.3) to find the item after each subtree
+    let mut idepth = vec![0i64; items.len()];
+    {
+        let mut d = 0i64;
+        for (p, it) in items.iter().enumerate() {
+            idepth[p] = d;
+            match it {
+                Item::Null => d -= 1,
+                Item::Die { abbrev, .. } => {
+                    if decls[*abbrev].children {
+                        d += 1;
+                    }
+                }
+            }
+        }
+    }
+    let nitems = items.len();
+    let mut notes = vec![];
+    for i in 0..n {
+        let p = node_item[i];
+        let s = shapes[i];
+        let d = idepth[p];
+        // the item right after this entry's subtree
+        let after = if s.children {
+            let mut q = p + 1;
+            while q < nitems && !(matches!(items[q], Item::Null) && idepth[q] == d + 1) {
+                q += 1;
+            }
+            (q + 1).min(nitems)
+        } else {
+            p + 1
+        };
+        let mut vals = vec![];
+        let attrs = shape_attrs(s);
+        for (k, ad) in attrs.iter().enumerate() {
+            if ad.name == forms::AT_SIBLING {
+                let mut v = AttrVal::new(Val::Ref { item: after, delta: 0 });
+                let mut right = Some(after);
+                if ad.form == forms::F_REF_UDATA {
+                    v.leb_len = 5;
+                }
+                if wrong_node[i] {
+                    right = None;
+                    v.val = match sp.sib {
+                        Sib::SelfRef => Val::Ref { item: p, delta: 0 },
+                        Sib::Backward => match r.below(3) {
+                            0 => Val::U(r.below(11)),
+                            1 => Val::Ref { item: r.usize(p + 1), delta: if p == 0 { -1 } else { 0 } },
+                            _ => Val::Ref { item: 0, delta: 0 },
+                        },
+                        Sib::Inside => Val::Ref { item: p, delta: 1 },
+                        Sib::Beyond => match r.below(3) {
+                            0 => Val::Ref { item: nitems, delta: 1 + r.below(3) as i64 },
+                            1 => Val::Ref { item: nitems, delta: 64 + r.below(200) as i64 },
+                            _ => Val::Ref { item: nitems, delta: 0x7000 },
+                        },
+                        // a harmful forward offset (middle of the following item) in a form that is
+                        // not a unit reference, or on an entry without children
+                        Sib::NonRef | Sib::WrongChildless => Val::Ref { item: (p + 2).min(nitems), delta: if p + 2 < nitems { 0 } else { -1 } },
+                        _ => v.val.clone(),
+                    };
+                    if sp.sib == Sib::Backward && p == 0 {
+                        v.val = Val::U(r.below(4));
+                    }
+                }
+                notes.push(SibNote { item: p, attr: k, right });
+                vals.push(v);
+            } else {
+                vals.push(match ad.form {
+                    forms::F_STRING => AttrVal::new(Val::Bytes(crate::gen::info::filler(r.usize(7), i as u64))),
+                    forms::F_UDATA => AttrVal::u(r.boundary()),
+                    forms::F_FLAG_PRESENT => AttrVal::new(Val::Nothing),
+                    _ => AttrVal::u(r.below(65536)),
+                });
+            }
+        }
+        if let Item::Die { vals: v, code_len, .. } = &mut items[p] {
+            *v = vals;
+            // occasionally a padded (non-canonical) abbreviation code
+            let d = &decls[decl_of[&s]];
+            if d.code < 128 && r.chance(1, 12) {
+                *code_len = 2;
+            }
+        }
+    }
+    let mut unit = UnitCfg::new(sp.enc, sp.kind, table_index, items);
+    unit.type_signature = r.next();
+    unit.dwo_id = r.next();
+    unit.type_offset = if r.bool() { TypeOffset::Item(r.usize(nitems.max(1))) } else { TypeOffset::Raw(r.boundary() & 0xffff_ffff) };
+    ForestUnit { table: AbbrevTable { decls, terminated: sp.terminated }, unit, notes, strict: sp.sib != Sib::WrongChildless }
+}
+
+// ------------------------------------------------------------------ oracle
+
+fn input_json(b: &Built, tag: &str, extra: &str) -> Value {
+    json!({
+        "what": tag,
+        "detail": extra,
+        "le": b.le,
+        "units": b.units.iter().map(|u| json!({"enc": u.enc.label(), "kind": format!("{:?}", u.kind), "sec": format!("{:?}", u.sec), "offset": u.offset, "items": u.items.len()})).collect::<Vec<_>>(),
+        "debug_abbrev": hex(&b.debug_abbrev),
+        "debug_info": hex(&b.debug_info),
+        "debug_types": hex(&b.debug_types),
+    })
+}
+
+fn cmp_seq(ctx: &mut Ctx, sig: &str, exp: &[Ent], got: &Result<(Vec<Ent>, bool), String>, strict: bool, input: &dyn Fn() -> Value) {
+    match got {
+        Ok((g, flag)) => {
+            if strict {
+                if g.as_slice() != exp {
+                    // find the first difference for a readable message
+                    let k = exp.iter().zip(g.iter()).position(|(a, b)| a != b).unwrap_or(exp.len().min(g.len()));
+                    ctx.check_eq(sig, &(exp.len(), k, exp.get(k)), &(g.len(), k, g.get(k)), input);
+                }
+                ctx.check_eq(&format!("{sig}.protocol"), &true, flag, input);
+            } else if g.as_slice() != exp {
+                ctx.obs("secondary.mismatch.wrong_sibling_on_childless_followed");
+            }
+        }
+        Err(e) => {
+            if strict {
+                ctx.fail(&format!("{sig}.err"), &format!("{sig}: well-formed unit rejected: {e}"), input);
+            } else {
+                ctx.obs("secondary.mismatch.wrong_sibling_on_childless_error");
+            }
+        }
+    }
+}
+
+fn cmp_tree(ctx: &mut Ctx, sig: &str, items: &[ItemModel], root: usize, par: &[Option<usize>], got: &Result<Vec<Vec<(Ent, Option<u64>)>>, String>, strict: bool, input: &dyn Fn() -> Value) {
+    match got {
+        Ok(gs) => {
+            for (mode, g) in [0u8, 1, 2].iter().zip(gs.iter()) {
+                let exp = tree_model(items, root, par, *mode);
+                if g.as_slice() != exp.as_slice() {
+                    if strict {
+                        let k = exp.iter().zip(g.iter()).position(|(a, b)| a != b).unwrap_or(exp.len().min(g.len()));
+                        let name = ["full", "direct_children", "partial"][*mode as usize];
+                        ctx.check_eq(&format!("{sig}.{name}"), &(exp.len(), k, exp.get(k)), &(g.len(), k, g.get(k)), input);
+                    } else {
+                        ctx.obs("secondary.mismatch.wrong_sibling_on_childless_followed");
+                    }
+                }
+            }
+        }
+        Err(e) => {
+            if strict {
+                ctx.fail(&format!("{sig}.err"), &format!("{sig}: well-formed unit rejected: {e}"), input);
+            } else {
+                ctx.obs("secondary.mismatch.wrong_sibling_on_childless_error");
+            }
+        }
+    }
+}
+
+fn tree_model(items: &[ItemModel], root: usize, par: &[Option<usize>], mode: u8) -> Vec<(Ent, Option<u64>)> {
+    let rel = items[root].depth;
+    // pruned[j]: j lies below an entry whose children the traversal does not visit
+    let mut pruned: BTreeMap<usize, bool> = BTreeMap::new();
+    let mut out = vec![];
+    for j in subtree(items, root) {
+        if j == root {
+            pruned.insert(j, false);
+            out.push((ent_model(&items[j], rel), None));
+            continue;
+        }
+        let p = par[j];
+        let hidden = match p {
+            Some(p) => pruned.get(&p).copied().unwrap_or(true) || (p != root && !descend(mode, items[p].offset)),
+            None => true,
+        };
+        pruned.insert(j, hidden);
+        if !hidden {
+            out.push((ent_model(&items[j], rel), p.map(|p| items[p].offset)));
+        }
+    }
+    out
+}
+
+/// Judge one built case.  `strict[u]` is false for units whose sibling attributes are wrong in a
+/// way the property does not cover.
+fn judge(ctx: &mut Ctx, b: &Built, plan: &Plan, obs: &Result<Vec<UnitObs>, String>, strict: &[bool], tag: &str, detail: &str) {
+    let input = || input_json(b, tag, detail);
+    let obs = match obs {
+        Ok(o) => o,
+        Err(e) => {
+            ctx.fail("units.headers", &format!("unit headers of a well-formed section could not be read: {e}"), &input);
+            return;
+        }
+    };
+    if b.units.len() > 1 {
+        ctx.obs("section.multi_unit");
+    }
+    for (ui, (um, uo)) in b.units.iter().zip(obs.iter()).enumerate() {
+        let strict = strict[ui];
+        // ---- header
+        ctx.check_eq("unit_header", &header_model(um), &uo.header, &input);
+        ctx.obs(&format!("unit.v{}.{:?}", um.enc.version, um.kind));
+        ctx.obs(if um.enc.fmt64 { "unit.format64" } else { "unit.format32" });
+        ctx.obs(if um.enc.le { "unit.le" } else { "unit.be" });
+        ctx.obs(&format!("unit.addr{}", um.enc.addr));
+        if um.sec == Sec::Types {
+            ctx.obs("section.debug_types");
+        }
+        if let Some(same) = uo.header_from_offset_same {
+            ctx.obs("header.from_offset");
+            ctx.check_eq("header_from_offset", &true, &same, &input);
+        }
+        for (x, inb, conv, rf, ea) in &uo.bounds {
+            ctx.obs("bounds.checked");
+            let exp = *x >= um.header_size && *x < um.end;
+            ctx.check_eq("is_in_bounds", &(*x, exp), &(*x, *inb), &input);
+            ctx.check_eq("to_unit_offset", &(*x, if exp { Some(*x) } else { None }), &(*x, *conv), &input);
+            ctx.check_eq("range_from.in_bounds", &(*x, exp), &(*x, *rf), &input);
+            ctx.check_eq("entries_at_offset.in_bounds", &(*x, exp), &(*x, *ea), &input);
+        }
+        if let Err(e) = &uo.abbrevs {
+            ctx.fail("abbreviations.err", &format!("well-formed abbreviation table rejected: {e}"), &input);
+            continue;
+        }
+        if um.items.is_empty() {
+            continue;
+        }
+        let items = &um.items;
+        let par = parents(items);
+        let all: Vec<Ent> = items.iter().map(|m| ent_model(m, 0)).collect();
+        let nonnull: Vec<Ent> = all.iter().filter(|e| !e.null).cloned().collect();
+        // ---- whole-unit paths
+        ctx.obs("path.raw");
+        cmp_seq(ctx, "raw.read_entry", &all, &uo.raw, true, &input);
+        ctx.obs("path.dfs");
+        cmp_seq(ctx, "cursor.next_dfs", &nonnull, &uo.dfs, true, &input);
+        ctx.obs("path.next_entry");
+        cmp_seq(ctx, "cursor.next_entry", &all, &uo.entries, true, &input);
+        // sibling walk
+        ctx.obs("path.sibling_walk");
+        {
+            // model: entries reachable from the first top-level list
+            let mut exp: Vec<(u64, Option<u64>, usize)> = vec![];
+            if !items[0].null {
+                let mut lists: Vec<(usize, Option<usize>)> = vec![(0, None)];
+                while let Some((first, parent)) = lists.pop() {
+                    let mut list = vec![first];
+                    list.extend(siblings_after(items, first));
+                    for (pos, &j) in list.iter().enumerate() {
+                        exp.push((items[j].offset, parent.map(|p| items[p].offset), pos));
+                        if items[j].children && j + 1 < items.len() && !items[j + 1].null {
+                            lists.push((j + 1, Some(j)));
+                        }
+                    }
+                }
+            }
+            exp.sort();
+            match &uo.walk {
+                Ok(g) => {
+                    if *g != exp {
+                        if strict {
+                            let k = exp.iter().zip(g.iter()).position(|(a, b)| a != b).unwrap_or(exp.len().min(g.len()));
+                            ctx.check_eq("cursor.next_sibling.walk", &(exp.len(), exp.get(k)), &(g.len(), g.get(k)), &input);
+                        } else {
+                            ctx.obs("secondary.mismatch.wrong_sibling_on_childless_followed");
+                        }
+                    }
+                }
+                Err(e) if e == "budget" => ctx.inconclusive("sibling walk budget exhausted"),
+                Err(e) => {
+                    if strict {
+                        ctx.fail("cursor.next_sibling.walk.err", &format!("sibling walk failed on a well-formed unit: {e}"), &input)
+                    } else {
+                        ctx.obs("secondary.mismatch.wrong_sibling_on_childless_error");
+                    }
+                }
+            }
+        }
+        if let Some(t) = &uo.tree {
+            ctx.obs("path.tree");
+            if !items[0].null {
+                cmp_tree(ctx, "tree.children", items, 0, &par, t, strict, &input);
+            }
+        }
+        if let Some(d) = &uo.dwarf_unit {
+            ctx.obs("path.dwarf_unit");
+            match d {
+                Ok((a, r)) => {
+                    if *a != nonnull {
+                        ctx.check_eq("Unit.entries.next_dfs", &nonnull.len(), &a.len(), &input);
+                        ctx.fail("Unit.entries.next_dfs.seq", "Unit::entries reports a different sequence than the encoded one", &input);
+                    }
+                    if *r != all {
+                        ctx.fail("Unit.entries_raw.seq", "Unit::entries_raw reports a different sequence than the encoded one", &input);
+                    }
+                }
+                Err(e) => ctx.fail("Dwarf.unit.err", &format!("Dwarf::unit failed on a well-formed unit: {e}"), &input),
+            }
+        }
+        // ---- positioned reads
+        for p in &uo.pos {
+            let i = p.item;
+            let m = &items[i];
+            let rel = m.depth;
+            ctx.obs("path.pos.entry");
+            match &p.entry {
+                Ok(e) => {
+                    ctx.check_eq("UnitHeader.entry", &ent_model(m, rel), e, &input);
+                }
+                Err(e) => ctx.fail("UnitHeader.entry.err", &format!("entry at unit+0x{:x} not readable: {e}", m.offset), &input),
+            }
+            ctx.obs("path.pos.dfs");
+            let suffix_nonnull: Vec<Ent> = items[i..].iter().filter(|x| !x.null).map(|x| ent_model(x, rel)).collect();
+            cmp_seq(ctx, "entries_at_offset.next_dfs", &suffix_nonnull, &p.dfs, true, &input);
+            ctx.obs("path.pos.raw");
+            let suffix_all: Vec<Ent> = items[i..].iter().map(|x| ent_model(x, rel)).collect();
+            cmp_seq(ctx, "entries_raw.at_offset", &suffix_all, &p.raw, true, &input);
+            ctx.obs("path.pos.siblings");
+            let mut sl = vec![ent_model(m, rel)];
+            sl.extend(siblings_after(items, i).into_iter().map(|j| ent_model(&items[j], rel)));
+            cmp_seq(ctx, "entries_at_offset.next_sibling", &sl, &p.siblings, strict, &input);
+            if let Some(t) = &p.tree {
+                ctx.obs("path.pos.tree");
+                cmp_tree(ctx, "entries_tree.at_offset", items, i, &par, t, strict, &input);
+            }
+        }
+        for ok in &uo.entry_at_null_err {
+            if !*ok {
+                ctx.obs("secondary.mismatch.entry_at_null_accepted");
+            }
+        }
+        let _ = plan;
+    }
+}
+
+/// Plan start positions and tree usage from the model.
+fn make_plan(b: &Built, r: &mut Rng) -> Plan {
+    let mut starts = vec![];
+    let mut tree = vec![];
+    for u in &b.units {
+        let n = u.items.len();
+        let maxd = u.items.iter().map(|m| m.depth).max().unwrap_or(0);
+        tree.push(maxd <= 300 && n <= 12_000 && n > 0);
+        if n <= 400 {
+            starts.push((0..n).collect());
+        } else {
+            let mut s: Vec<usize> = (0..48).map(|_| r.usize(n)).collect();
+            s.push(0);
+            s.push(n - 1);
+            s.push(n / 2);
+            s.sort();
+            s.dedup();
+            starts.push(s);
+        }
+    }
+    Plan { starts, tree }
+}
+
+fn run_case(ctx: &mut Ctx, cfg: &InfoCfg, notes: &[Vec<SibNote>], strict_in: &[bool], tag: &str, detail: &str, r: &mut Rng) -> Built {
+    let b = cfg.build();
+    ctx.eval();
+    // the generator's "right" sibling values must really name the intended item
+    let mut strict = strict_in.to_vec();
+    for (ui, ns) in notes.iter().enumerate() {
+        let um = &b.units[ui];
+        for nt in ns {
+            let Some(target) = nt.right else { continue };
+            let want = um.items.get(target).map(|m| m.offset).unwrap_or(um.end);
+            let have = match um.items[nt.item].attrs.get(nt.attr).map(|a| &a.expect) {
+                Some(Expect::Val(mv)) => match mv.pay {
+                    Pay::Int(x) => x as u64,
+                    _ => u64::MAX,
+                },
+                _ => u64::MAX,
+            };
+            if want != have {
+                strict[ui] = false;
+                ctx.obs("harness.sibling_value_truncated");
+            } else if target >= um.items.len() {
+                ctx.obs("sibling.target.end");
+            } else if um.items[target].null {
+                ctx.obs("sibling.target.null");
+            } else {
+                ctx.obs("sibling.target.entry");
+            }
+        }
+    }
+    let plan = make_plan(&b, r);
+    let input = || input_json(&b, tag, detail);
+    let obs = ctx.guard(tag, &input, || observe(&b, &plan));
+    if let Some(obs) = obs {
+        judge(ctx, &b, &plan, &obs, &strict, tag, detail);
+    }
+    if b.units.iter().any(|u| u.items.len() >= 2) {
+        let mut bytes = b.debug_abbrev.clone();
+        bytes.extend_from_slice(&b.debug_info);
+        bytes.extend_from_slice(&b.debug_types);
+        ctx.nontrivial_bytes("c02", &bytes);
+    }
+    b
+}
+
+// ------------------------------------------------------------------ workloads
+
+fn kind_for(enc: Enc, k: u64) -> UnitKind {
+    if enc.version >= 5 {
+        UnitKind::ALL[(k % 6) as usize]
+    } else if k % 3 == 0 {
+        UnitKind::Type
+    } else {
+        UnitKind::Compile
+    }
+}
+
+fn shape_obs(ctx: &mut Ctx, depths: &[u8], leaf_children: &[bool], trailing: usize) {
+    ctx.obs(&format!("padding.{}", trailing.min(3)));
+    if leaf_children.iter().any(|&x| x) {
+        ctx.obs("shape.empty_child_list");
+    }
+    if depths.iter().filter(|&&d| d == 0).count() > 1 {
+        ctx.obs("shape.multi_root");
+    }
+}
+
+fn systematic(ctx: &mut Ctx) {
+    let mut idx = 0u64;
+    for n in 1..=6usize {
+        for depths in forest_depths(n) {
+            for sib in SIBS {
+                for trailing in 0..4usize {
+                    idx += 1;
+                    if !ctx.want("forest", idx) {
+                        continue;
+                    }
+                    let mut r = ctx.rng("forest", idx);
+                    let enc = Enc::nth(idx.wrapping_add(ctx.seed.wrapping_mul(7)));
+                    let scheme = SCHEMES[((idx / 3) % 7) as usize];
+                    // leaves: all plain / all with empty child lists / random
+                    let leaf_children: Vec<bool> = match idx % 3 {
+                        0 => vec![false; n],
+                        1 => (0..n).map(|_| r.bool()).collect(),
+                        _ => vec![true; n],
+                    };
+                    let sp = ForestSpec {
+                        enc,
+                        kind: kind_for(enc, idx / 2),
+                        depths: &depths,
+                        leaf_children: leaf_children.clone(),
+                        sib,
+                        scheme,
+                        trailing,
+                        unused_decls: r.usize(3),
+                        terminated: idx % 5 != 0,
+                    };
+                    let fu = forest_unit(&mut r, &sp, 0);
+                    ctx.obs(&format!("sibling.{sib:?}"));
+                    ctx.obs(&format!("codes.{scheme:?}"));
+                    if !sp.terminated {
+                        ctx.obs("abbrev.unterminated");
+                    }
+                    shape_obs(ctx, &depths, &leaf_children, trailing);
+                    let cfg = InfoCfg { le: enc.le, tables: vec![fu.table], units: vec![fu.unit], abbrev_lead: (idx % 4) as usize };
+                    let detail = format!("depths={depths:?} sib={sib:?} scheme={scheme:?} trailing={trailing}");
+                    let b = run_case(ctx, &cfg, &[fu.notes], &[fu.strict], "forest", &detail, &mut r);
+                    if idx == 2000 {
+                        ctx.sample("forest", || json!({"enc": enc.label(), "detail": detail, "debug_info": hex(&b.debug_info), "debug_abbrev": hex(&b.debug_abbrev), "model": format!("{:?}", b.units[0].items.iter().map(|m| (m.offset, m.depth, m.null, m.tag)).collect::<Vec<_>>())}));
+                    }
+                }
+            }
+        }
+    }
+}
+
+fn layouts(ctx: &mut Ctx) {
+    // every header layout on its own, and all layouts of one (byte order) concatenated
+    let mut idx = 0u64;
+    for enc in Enc::all() {
+        for kind in UnitKind::ALL {
+            if !kind.valid_for(enc.version) {
+                continue;
+            }
+            idx += 1;
+            if !ctx.want("layout", idx) {
+                continue;
+            }
+            let mut r = ctx.rng("layout", idx);
+            let depths: Vec<u8> = vec![0, 1, 2, 1, 1, 2];
+            let sp = ForestSpec {
+                enc,
+                kind,
+                depths: &depths,
+                leaf_children: vec![false, false, true, false, false, false],
+                sib: SIBS[(idx % 3) as usize],
+                scheme: SCHEMES[(idx % 7) as usize],
+                trailing: (idx % 4) as usize,
+                unused_decls: 1,
+                terminated: true,
+            };
+            let fu = forest_unit(&mut r, &sp, 0);
+            let cfg = InfoCfg { le: enc.le, tables: vec![fu.table], units: vec![fu.unit], abbrev_lead: 0 };
+            let detail = format!("layout {} {:?}", enc.label(), kind);
+            run_case(ctx, &cfg, &[fu.notes], &[fu.strict], "layout", &detail, &mut r);
+        }
+    }
+    for le in [true, false] {
+        for rep in 0..8u64 {
+            let i = 1000 + rep + if le { 0 } else { 8 };
+            if !ctx.want("layout", i) {
+                continue;
+            }
+            let mut r = ctx.rng("layout", i);
+            let mut encs: Vec<(Enc, UnitKind)> = vec![];
+            for enc in Enc::all() {
+                if enc.le != le {
+                    continue;
+                }
+                for kind in UnitKind::ALL {
+                    if kind.valid_for(enc.version) {
+                        encs.push((enc, kind));
+                    }
+                }
+            }
+            r.shuffle(&mut encs);
+            let mut tables = vec![];
+            let mut units = vec![];
+            let mut notes = vec![];
+            let mut strict = vec![];
+            let depths_pool: [&[u8]; 4] = [&[0], &[0, 1], &[0, 1, 1, 2], &[0, 1, 2, 3]];
+            for (k, (enc, kind)) in encs.iter().enumerate() {
+                let depths = depths_pool[r.usize(4)];
+                let sp = ForestSpec {
+                    enc: *enc,
+                    kind: *kind,
+                    depths,
+                    leaf_children: vec![r.bool(); depths.len()],
+                    sib: SIBS[r.usize(3)],
+                    scheme: SCHEMES[r.usize(7)],
+                    trailing: r.usize(4),
+                    unused_decls: r.usize(2),
+                    terminated: true,
+                };
+                let fu = forest_unit(&mut r, &sp, k);
+                tables.push(fu.table);
+                units.push(fu.unit);
+                notes.push(fu.notes);
+                strict.push(fu.strict);
+            }
+            let cfg = InfoCfg { le, tables, units, abbrev_lead: rep as usize };
+            run_case(ctx, &cfg, &notes, &strict, "layout", "all layouts concatenated", &mut r);
+        }
+    }
+}
+
+fn random_depths(r: &mut Rng, n: usize, mode: u64) -> Vec<u8> {
+    let mut d: Vec<u8> = vec![0];
+    while d.len() < n {
+        let last = *d.last().unwrap() as i64;
+        let next = match mode {
+            // bushy
+            0 => r.irange(0.max(last - 2), (last + 1).min(200)),
+            // deep-ish
+            1 => if r.chance(3, 4) { (last + 1).min(200) } else { r.irange(1.min(last), last) },
+            // wide under one root
+            2 => if d.len() == 1 { 1 } else if r.chance(1, 10) { 2 } else { 1 },
+            // anything incl. several roots
+            _ => r.irange(0, (last + 1).min(200)),
+        };
+        d.push(next as u8);
+    }
+    d
+}
+
+fn random_forests(ctx: &mut Ctx) {
+    let n = ctx.size(3_000, 40_000, 8);
+    for i in 0..n {
+        if !ctx.want("random", i) {
+            continue;
+        }
+        let mut r = ctx.rng("random", i);
+        let le = r.bool();
+        let nunits = 1 + r.usize(4);
+        let share = r.chance(1, 3);
+        let mut tables = vec![];
+        let mut units = vec![];
+        let mut notes = vec![];
+        let mut strict = vec![];
+        let mut detail = String::new();
+        for k in 0..nunits {
+            let mut enc = Enc::random(&mut r);
+            enc.le = le;
+            let nn = 1 + r.small(60) as usize;
+            let mode = r.below(4);
+            let depths = random_depths(&mut r, nn, mode);
+            let leaf_children: Vec<bool> = (0..nn).map(|_| r.chance(1, 4)).collect();
+            let sib = SIBS[r.usize(SIBS.len())];
+            let scheme = SCHEMES[r.usize(7)];
+            let trailing = r.usize(4);
+            let sp = ForestSpec { enc, kind: kind_for(enc, r.next()), depths: &depths, leaf_children: leaf_children.clone(), sib, scheme, trailing, unused_decls: r.usize(4), terminated: true };
+            let fu = forest_unit(&mut r, &sp, k);
+            ctx.obs(&format!("sibling.{sib:?}"));
+            ctx.obs(&format!("codes.{scheme:?}"));
+            shape_obs(ctx, &depths, &leaf_children, trailing);
+            detail.push_str(&format!("[{} n={nn} sib={sib:?} scheme={scheme:?}] ", enc.label()));
+            tables.push(fu.table);
+            units.push(fu.unit);
+            notes.push(fu.notes);
+            strict.push(fu.strict);
+        }
+        if share && nunits > 1 {
+            // duplicate unit 0 (same table, same items) at the end: shared abbreviation offset
+            let mut u = units[0].clone();
+            u.dwo_id ^= 0xff;
+            units.push(u);
+            notes.push(notes[0].clone());
+            strict.push(strict[0]);
+        }
+        let cfg = InfoCfg { le, tables, units, abbrev_lead: r.usize(5) };
+        run_case(ctx, &cfg, &notes, &strict, "random", &detail, &mut r);
+    }
+}
+
+fn large(ctx: &mut Ctx) {
+    // 2000-deep chains, 5000 siblings, 3000-entry forests
+    let reps = ctx.size(12, 60, 4);
+    for i in 0..reps {
+        if !ctx.want("large", i) {
+            continue;
+        }
+        let mut r = ctx.rng("large", i);
+        let small_profile = ctx.dbg() || ctx.slow();
+        let (depths, what): (Vec<u8>, &str) = match i % 3 {
+            0 => {
+                // chain: depth sequence 0,1,2,... is limited to u8; use a sawtooth of chains up to 200 deep,
+                // and a real 2000-deep chain below through `deep_chain`
+                let mut d = vec![];
+                let total = if small_profile { 600 } else { 3000 };
+                while d.len() < total {
+                    let len = 1 + r.usize(200);
+                    for k in 0..len {
+                        d.push(k as u8);
+                    }
+                }
+                d[0] = 0;
+                (d, "shape.large")
+            }
+            1 => {
+                let total = if small_profile { 1200 } else { 5000 };
+                let mut d = vec![0u8];
+                d.extend(std::iter::repeat(1u8).take(total));
+                (d, "shape.wide")
+            }
+            _ => (random_depths(&mut r, if small_profile { 500 } else { 3000 }, 0), "shape.large"),
+        };
+        ctx.obs(what);
+        let mut enc = Enc::random(&mut r);
+        let sib = SIBS[r.usize(8)];
+        let scheme = SCHEMES[r.usize(7)];
+        let n = depths.len();
+        let sp = ForestSpec { enc, kind: kind_for(enc, i), depths: &depths, leaf_children: (0..n).map(|_| r.chance(1, 8)).collect(), sib, scheme, trailing: r.usize(4), unused_decls: 2, terminated: true };
+        let fu = forest_unit(&mut r, &sp, 0);
+        ctx.obs(&format!("sibling.{sib:?}"));
+        let cfg = InfoCfg { le: enc.le, tables: vec![fu.table], units: vec![fu.unit], abbrev_lead: 0 };
+        run_case(ctx, &cfg, &[fu.notes], &[fu.strict], "large", &format!("{what} n={n} sib={sib:?} scheme={scheme:?}"), &mut r);
+        enc.le = !enc.le;
+    }
+    // a genuine 2000-deep chain (the depth-sequence helper is limited to 255): hand-built stream
+    for i in 0..ctx.size(4, 16, 2) {
+        if !ctx.want("chain", i) {
+            continue;
+        }
+        let mut r = ctx.rng("chain", i);
+        let enc = Enc::random(&mut r);
+        let depth = if ctx.dbg() || ctx.slow() { 600 } else { 2000 };
+        let with_sibling = i % 2 == 1;
+        let mut attrs = vec![AttrDecl::new(0x3b, forms::F_DATA1)];
+        if with_sibling {
+            attrs.push(AttrDecl::new(forms::AT_SIBLING, forms::F_REF4));
+        }
+        let decls = vec![
+            AbbrevDecl { code: 1, tag: 0x11, children: true, attrs: attrs.clone() },
+            AbbrevDecl { code: 2, tag: 0x24, children: false, attrs: vec![AttrDecl::new(0x3b, forms::F_DATA1)] },
+        ];
+        let mut items = vec![];
+        for k in 0..depth {
+            // entry k's subtree ends at the null that closes its list: item index 2*depth - k
+            let mut vals = vec![AttrVal::u(k as u64 & 0xff)];
+            if with_sibling {
+                vals.push(AttrVal::new(Val::Ref { item: 2 * depth - k + 1, delta: 0 }));
+            }
+            items.push(Item::Die { abbrev: 0, vals, code_len: 0 });
+        }
+        items.push(Item::Die { abbrev: 1, vals: vec![AttrVal::u(7)], code_len: 0 });
+        for _ in 0..depth {
+            items.push(Item::Null);
+        }
+        ctx.obs("shape.deep_chain");
+        let cfg = InfoCfg { le: enc.le, tables: vec![AbbrevTable { decls, terminated: true }], units: vec![UnitCfg::new(enc, UnitKind::Compile, 0, items)], abbrev_lead: 0 };
+        run_case(ctx, &cfg, &[vec![]], &[true], "chain", &format!("chain depth {depth} sibling={with_sibling}"), &mut r);
+    }
+}
+
+// ------------------------------------------------------------------ abbreviations
+
+#[derive(Debug, Clone, PartialEq, Eq)]
+struct DeclObs {
+    code: u64,
+    tag: u16,
+    children: bool,
+    attrs: Vec<(u16, u16, Option<i64>)>,
+}
+
+fn decl_model(d: &AbbrevDecl) -> DeclObs {
+    DeclObs {
+        code: d.code,
+        tag: d.tag,
+        children: d.children,
+        attrs: d.attrs.iter().map(|a| (a.name, a.form, if a.form == forms::F_IMPLICIT_CONST { Some(a.implicit_const) } else { None })).collect(),
+    }
+}
+
+fn random_table(r: &mut Rng, scheme: Scheme, n: usize) -> Vec<AbbrevDecl> {
+    let codes = scheme_codes(r, scheme, n);
+    (0..n)
+        .map(|k| {
+            let na = r.usize(8);
+            let attrs = (0..na)
+                .map(|_| {
+                    let f = forms::FORMS[r.usize(forms::FORMS.len())].0;
+                    let mut a = AttrDecl::new(1 + r.below(0x8c) as u16, f);
+                    a.implicit_const = r.boundary() as i64;
+                    a
+                })
+                .collect();
+            AbbrevDecl { code: codes[k], tag: 1 + ((k as u16 * 7 + r.below(3) as u16) % 0x4b), children: r.bool(), attrs }
+        })
+        .collect()
+}
+
+fn abbrev_case(ctx: &mut Ctx, tag: &str, decls: &[AbbrevDecl], terminated: bool, lead: usize, le: bool, expect_dup: Option<u64>) {
+    let cfg = InfoCfg { le, tables: vec![AbbrevTable { decls: decls.to_vec(), terminated }], units: vec![], abbrev_lead: lead };
+    let b = cfg.build();
+    let bytes = b.debug_abbrev.clone();
+    let off = b.tables[0].offset;
+    ctx.eval();
+    let codes: Vec<u64> = decls.iter().map(|d| d.code).collect();
+    let mut probes: Vec<u64> = vec![0];
+    for &c in &codes {
+        probes.push(c);
+        probes.push(c.wrapping_add(1));
+        probes.push(c.wrapping_sub(1));
+    }
+    probes.extend_from_slice(&[decls.len() as u64 + 1, 1 << 32, u64::MAX, 1 << 63, (1u64 << 32) + 5]);
+    probes.sort();
+    probes.dedup();
+    let input = || json!({"what": tag, "codes": codes, "terminated": terminated, "offset": off, "debug_abbrev": hex(&bytes)});
+    let got = ctx.guard(tag, &input, || {
+        let endian = if le { RunTimeEndian::Little } else { RunTimeEndian::Big };
+        let da = gimli::DebugAbbrev::new(&bytes, endian);
+        let ab = da.abbreviations(gimli::DebugAbbrevOffset(off as usize)).map_err(|e| format!("{e:?}"))?;
+        let mut out = vec![];
+        for &p in &probes {
+            out.push((
+                p,
+                ab.get(p).map(|a| DeclObs {
+                    code: a.code(),
+                    tag: a.tag().0,
+                    children: a.has_children(),
+                    attrs: a.attributes().iter().map(|s| (s.name().0, s.form().0, s.implicit_const_value())).collect(),
+                }),
+            ));
+        }
+        Ok::<_, String>(out)
+    });
+    let Some(got) = got else { return };
+    if let Some(dup) = expect_dup {
+        ctx.obs("abbrev.duplicate.rejected");
+        match got {
+            Err(e) => {
+                if !e.contains(&format!("DuplicateAbbreviationCode({dup})")) {
+                    ctx.obs("secondary.mismatch.duplicate_error_variant");
+                }
+            }
+            Ok(_) => ctx.fail("abbreviations.duplicate.accepted", &format!("a table with duplicate code {dup} was accepted (codes {codes:?})"), &input),
+        }
+        return;
+    }
+    let got = match got {
+        Ok(g) => g,
+        Err(e) => {
+            ctx.fail("abbreviations.parse.err", &format!("well-formed table rejected: {e} (codes {codes:?})"), &input);
+            return;
+        }
+    };
+    if !terminated {
+        ctx.obs("abbrev.unterminated");
+    }
+    for (p, g) in got {
+        let exp = decls.iter().find(|d| d.code == p).map(decl_model);
+        if exp.is_some() {
+            ctx.obs("abbrev.get.declared");
+        } else {
+            ctx.obs("abbrev.get.absent");
+        }
+        ctx.check_eq("Abbreviations.get", &(p, exp), &(p, g), &input);
+    }
+    ctx.nontrivial_bytes("c02.abbrev", &bytes);
+}
+
+fn abbrevs(ctx: &mut Ctx) {
+    // lookups: scheme x table size x repetitions
+    let reps = ctx.size(40, 400, 4);
+    let mut idx = 0u64;
+    for scheme in SCHEMES {
+        for n in 1..=8usize {
+            for rep in 0..reps {
+                idx += 1;
+                if !ctx.want("abbrev", idx) {
+                    continue;
+                }
+                let mut r = ctx.rng("abbrev", idx);
+                let n = if rep % 10 == 9 { n * 25 } else { n };
+                let decls = random_table(&mut r, scheme, n);
+                ctx.obs(&format!("codes.{scheme:?}"));
+                abbrev_case(ctx, "abbrev", &decls, rep % 3 != 0, (rep % 4) as usize, rep % 2 == 0, None);
+            }
+        }
+    }
+    // fixed orders named in the design
+    let fixed: &[&[u64]] = &[
+        &[1, 2, 5, 3, 4],
+        &[1, 3, 1000],
+        &[(1 << 32) + 5, 1 << 63, u64::MAX],
+        &[2, 1],
+        &[3, 1, 2],
+        &[5, 4, 3, 2, 1],
+        &[1, 2, 3, 7, 4, 5, 6, 8],
+        &[2, 3, 1, 4],
+        &[u64::MAX, 1, u64::MAX - 1, 2],
+    ];
+    for (k, codes) in fixed.iter().enumerate() {
+        if !ctx.want("abbrev.fixed", k as u64) {
+            continue;
+        }
+        let mut r = ctx.rng("abbrev.fixed", k as u64);
+        let mut decls = random_table(&mut r, Scheme::Sequential, codes.len());
+        for (d, &c) in decls.iter_mut().zip(codes.iter()) {
+            d.code = c;
+        }
+        abbrev_case(ctx, "abbrev.fixed", &decls, true, 0, true, None);
+        // duplicates of every position into every later position
+        for i in 0..codes.len() {
+            for j in (i + 1)..codes.len() {
+                let mut dd = decls.clone();
+                dd[j].code = dd[i].code;
+                abbrev_case(ctx, "abbrev.fixed.dup", &dd, true, 0, false, Some(dd[i].code));
+            }
+        }
+    }
+    // duplicates: scheme x n <= 6 x every position pair
+    let reps = ctx.size(3, 20, 1);
+    let mut idx = 0u64;
+    for scheme in SCHEMES {
+        for n in 2..=6usize {
+            for rep in 0..reps {
+                for i in 0..n {
+                    for j in (i + 1)..n {
+                        idx += 1;
+                        if !ctx.want("abbrev.dup", idx) {
+                            continue;
+                        }
+                        let mut r = ctx.rng("abbrev.dup", idx);
+                        let mut decls = random_table(&mut r, scheme, n);
+                        decls[j].code = decls[i].code;
+                        // sometimes the duplicate is an exact copy of the declaration
+                        if rep % 2 == 1 {
+                            decls[j] = decls[i].clone();
+                        }
+                        let dup = decls[i].code;
+                        abbrev_case(ctx, "abbrev.dup", &decls, rep % 2 == 0, 0, true, Some(dup));
+                    }
+                }
+            }
+        }
+    }
+    // the same codes in a *following* table are not duplicates
+    for k in 0..ctx.size(40, 200, 2) {
+        if !ctx.want("abbrev.two_tables", k) {
+            continue;
+        }
+        let mut r = ctx.rng("abbrev.two_tables", k);
+        let scheme = SCHEMES[r.usize(7)];
+        let n = 1 + r.usize(5);
+        let t1 = random_table(&mut r, scheme, n);
+        let mut t2 = random_table(&mut r, scheme, n);
+        for (a, b) in t2.iter_mut().zip(t1.iter()) {
+            a.code = b.code;
+        }
+        let cfg = InfoCfg { le: true, tables: vec![AbbrevTable { decls: t1.clone(), terminated: true }, AbbrevTable { decls: t2.clone(), terminated: r.bool() }], units: vec![], abbrev_lead: r.usize(3) };
+        let b = cfg.build();
+        ctx.eval();
+        let bytes = b.debug_abbrev.clone();
+        let offs = [b.tables[0].offset, b.tables[1].offset];
+        let input = || json!({"what": "two tables with the same codes", "offsets": offs, "debug_abbrev": hex(&bytes)});
+        let got = ctx.guard("abbrev.two_tables", &input, || {
+            let da = gimli::DebugAbbrev::new(&bytes, RunTimeEndian::Little);
+            let mut out = vec![];
+            for (ti, t) in [&t1, &t2].iter().enumerate() {
+                match da.abbreviations(gimli::DebugAbbrevOffset(offs[ti] as usize)) {
+                    Err(e) => out.push(Err(format!("{e:?}"))),
+                    Ok(ab) => out.push(Ok(t.iter().map(|d| ab.get(d.code).map(|a| (a.code(), a.tag().0, a.has_children(), a.attributes().len()))).collect::<Vec<_>>())),
+                }
+            }
+            out
+        });
+        let Some(got) = got else { continue };
+        for (ti, t) in [&t1, &t2].iter().enumerate() {
+            let exp: Result<Vec<Option<(u64, u16, bool, usize)>>, String> = Ok(t.iter().map(|d| Some((d.code, d.tag, d.children, d.attrs.len()))).collect());
+            ctx.check_eq("Abbreviations.two_tables", &exp, &got[ti], &input);
+        }
+    }
+}
+
+pub fn run(ctx: &mut Ctx) {
+    systematic(ctx);
+    layouts(ctx);
+    random_forests(ctx);
+    large(ctx);
+    abbrevs(ctx);
+    corpus::run(ctx);
+}
